@@ -19,7 +19,7 @@ theorem ctxKids_split (h p : Nat) (k2 : List HTree) (r : HTree) (hr : r.handle =
     have hk : k.handle ≠ h := fun e => hn.1 (e ▸ handle_mem_handles_ff k)
     simp only [List.cons_append]
     unfold ctxKids
-    rw [if_neg hk, ctxBelow_none_of_not_mem' h k hn.1]
+    rw [if_neg hk, ffx_ctxBelow_none_of_not_mem' h k hn.1]
     simp only
     rw [ctxKids_split h p k2 r hr k1 (left ++ [k]) hn.2]
     simp
@@ -53,13 +53,13 @@ theorem ctx?_kid (h : RootAt f X tc Y) {A B k1 k2 : List HTree} {p : Nat} {v : V
   have hntc : r.handle ∉ handles tc := h.rest_not_mem_tc hrm
   unfold Forest.ctx?
   have e1 : f.roots.findSome? (ctxBelow r.handle) = (X ++ Y).findSome? (ctxBelow r.handle) := by
-    rw [h.roots, List.findSome?_append, List.findSome?_cons, ctxBelow_none_of_not_mem' _ _ hntc,
+    rw [h.roots, List.findSome?_append, List.findSome?_cons, ffx_ctxBelow_none_of_not_mem' _ _ hntc,
       List.findSome?_append]
   rw [e1, hXY, List.findSome?_append]
   have hAn : A.findSome? (ctxBelow r.handle) = none := by
     rw [List.findSome?_eq_none_iff]
     intro t ht
-    apply ctxBelow_none_of_not_mem'
+    apply ffx_ctxBelow_none_of_not_mem'
     intro hm; exact hA (mem_handlesList_ff.2 ⟨t, ht, hm⟩)
   rw [hAn, List.findSome?_cons]
   simp only [Option.none_or]
@@ -166,11 +166,11 @@ theorem prepend_root (h : RootAt f X tc Y) {A B ks : List HTree} {p : Nat} {v : 
   have hget : f.get? p = some (HTree.node p v ks) := by rw [h.get?_rest hpm]; exact hp
   have hsc := h.structureCheck_ok hp hpv hcn hcd
   have hdw : ks.dropWhile (fun k => !k.value.isNormal) = [] := by
-    apply dropWhile_all; intro k hk; simp [hks k hk]
+    apply ffx_dropWhile_all; intro k hk; simp [hks k hk]
   have hfc : f.firstChild p = none := by
     rw [Forest.firstChild_eq hget]; simp [HTree.kids, hdw]
   have htw : ks.takeWhile (fun k => k.value.category != .normal) = ks := by
-    apply takeWhile_all
+    apply ffx_takeWhile_all
     intro k hk
     have := hks k hk
     simp only [Value.isNormal, beq_eq_false_iff_ne, ne_eq] at this
